@@ -106,12 +106,15 @@ def ambient_module_term(t: T) -> Optional[str]:
 
 
 class RNG:
-    def __init__(self, ctx: Ctx):
+    def __init__(self, ctx: Ctx, fns: Optional[List[FunctionInfo]] = None):
         self.ctx = ctx
         self.P = ctx.P
         self.X = ctx.X
         self.G = CallGraph(ctx.P, ctx.X)
         self.entries: List[FunctionInfo] = []
+        if fns is not None:          # restricted use by other properties (e.g. C14): only these functions
+            self.fns, self.out_scope, self.reach = list(fns), [], list(fns)
+            return
         for c, m in ENTRIES:
             self.entries.append(self.P.method(c, m))
         self.reach = self.G.reachable(self.entries)
